@@ -20,6 +20,8 @@ UNIT_PROPS = {
     "cob_identity": ["C04"],
     "sync": ["C25"],
     "term": ["C26"],
+    "refs_verify": ["C20", "C01"],
+    "fetch_run": ["C01", "C02"],
 }
 
 CRYPTO_GROUP = ["signature_roundtrip", "public_key_roundtrip"]
@@ -49,6 +51,34 @@ def _lim(h, **kw):
 PAIRED = {}
 
 PROPS = {
+    "C01": {
+        "vx": ["fetch_run", "refs_verify"],
+        "kx": [],
+        "technique": "Verus sink precondition on the extracted FetchState::run: repository::update may only see tips of namespaces that the validation oracle accepted (loop invariant over the validation loop, prune contract); Verus contract on SignedRefs::verify (signature by the namespace key over the canonical text, identity root names this repository)",
+        "explanation": "FetchState::run (the whole validation loop with all four DelegateStatus arms, continue/early-return paths) is verified: at the single call that writes to the git repository, every non-blocked remote among the advertised signed-refs remotes that still has tips was reported valid by sigrefs::validate; FetchState::prune is proved to remove exactly that remote's tips/ids/sigrefs. SignedRefs::verify/verified accept only when the ed25519 check of the claimed key over Refs::canonical succeeds and refs/rad/root resolves to an identity document whose blob id is this repository's id.",
+        "not_decided": "Cached::validate_remote (the ref-by-ref comparison) and DataRefs::prepare_updates are assumed oracles/stand-ins here; the iterator chains computing the delegate key set are stand-ins; the protocol stages (network, in-memory refdb) are arbitrary; that a namespace left out of `tips` is byte-for-byte untouched by libgit2 is outside any contract.",
+    },
+    "C02": {
+        "vx": ["fetch_run"],
+        "kx": [],
+        "technique": "Verus sink precondition on the extracted FetchState::run: repository::update requires |valid delegates| >= identity threshold (minus one if the local node is a delegate) and that no remote whose signed refs were found missing/invalid during this fetch is counted; ghost set threaded through the validation oracles",
+        "explanation": "The threshold expression, the valid_delegates bookkeeping in every arm of the loop and the final gate are verified together: update is reachable only if the set counted has at least doc.threshold() - [local is delegate] members, is a subset of the delegates, and contains no remote for which load returned no sigrefs or validate returned failures. A Diverged delegate aborts with Err before any update; a Behind delegate is pruned.",
+        "not_decided": "Only the Success/Failed gate in run is decided; ensure_threshold in SpecialRefs::pre_validate, special_update's Abort/Reject policies in refs.rs and libgit2's ancestry computation are outside the unit (ancestry result is arbitrary). 'Leaves local storage unchanged' on Failed is decided as 'repository::update is not called'; Doc::threshold() >= 1 is proved in unit identity.",
+    },
+    "C20": {
+        "vx": ["refs_verify"],
+        "kx": [],
+        "technique": "Verus contract on the extracted SignedRefs::<Unverified>::{verify, verified}: Ok <==> ed25519-valid(claimed key, canonical(refs), signature) and identity-root binding; accepted value carries exactly the verified refs, key and signature",
+        "explanation": "verify returns Ok only when PublicKey::verify over Refs::canonical(self.refs) succeeds for the claimed id, and the result's refs/signature/id equal the inputs (no other refs can be accepted under that signature).",
+        "not_decided": "First sentence of C20 (canonical text parses back to the same set) is string/iterator code outside Verus: not decided. 'Changing any ref makes verification fail' reduces to ed25519 unforgeability and injectivity of canonical(): assumed, not proved.",
+    },
+    "C19": {
+        "vx": ["identity"],
+        "kx": [],
+        "technique": "Verus contracts on the extracted RawDoc::verified, Threshold::new, Delegates accessors, Doc accessors: every Doc constructed satisfies valid() (1..=255 distinct delegates, 1 <= threshold <= #delegates)",
+        "explanation": "RawDoc::verified is proved to return Ok only with a Doc satisfying valid() whose delegates/threshold/visibility are those of the raw document; Threshold::new is Ok exactly for 1 <= t <= min(255, #delegates).",
+        "not_decided": "Delegates::new (try_fold closure) is assumed (external_body) -- a Kani harness for it did not terminate within 40 min and is not registered; version check, serde/JSON decoding, encode/decode round-trip and RepoId == blob hash of canonical encoding are outside Verus (serde_json, git2): not decided.",
+    },
     "C22": {
         "vx": ["crdt"],
         "kx": [],
